@@ -40,7 +40,7 @@ def cases(tier, seed):
     n, length = (60, 8) if tier == "quick" else (3000, 14)
     for i in range(n):
         yield {"seed": seed, "idx": i, "length": length}
-    for i in range(24 if tier == "quick" else 400):
+    for i in range(36 if tier == "quick" else 400):
         yield {"kind": "rebind", "seed": seed, "idx": i}
 
 
@@ -294,6 +294,10 @@ def scale3(x):
     return x %(op)s FACTOR %(op)s 4
 """
 REBINDS = {  # statement executed in the main module, after versions were asked once
+    # the name of a memento function re-bound to its plain function / a modifier clone / an unregistered wrapper
+    "memento_to_its_plain_function": "report = report.fn",
+    "memento_to_a_modifier_clone": "report = report.force_local()",
+    "memento_to_an_unregistered_wrapper": "report = m.memento.MementoFunction(report.fn, version_salt=\"s\", register_fn=False)",
     "module_alias": "import %(pkg)s.other2 as cfg",   # the module alias through which a helper and a variable are reached
     "late_attribute_of_the_second_module": "cfg2.later = cfg2.scale3",  # one of three undefined symbols of one name
     "late_attribute_of_the_first_module": "cfg.later = cfg.scale3",
@@ -311,7 +315,9 @@ def rebind_child(arg):
     sys.path.insert(0, root)
     env.set_env(os.path.join(root, "env"), default_storage=env.mem_backend())
     main = importlib.import_module(pkg + ".main")
-    res = {"before": {n: getattr(main, n).version() for n in ("report", "total", "viaattr", "twice")}}
+    # (a name may be bound to a plain function by the statement under test: only memento functions are asked)
+    res = {"before": {n: getattr(main, n).version() for n in ("report", "total", "viaattr", "twice")
+                      if hasattr(getattr(main, n), "version")}}
     if arg.get("live"):
         if arg.get("call_first"):
             main.total(3)
@@ -320,6 +326,8 @@ def rebind_child(arg):
         linecache.cache[name] = (len(src), None, src.splitlines(True), name)
         exec(compile(src, name, "exec"), main.__dict__)
     for n in (["twice", "total", "viaattr", "report"] if arg.get("order") else ["report", "viaattr", "total", "twice"]):
+        if not hasattr(getattr(main, n), "version"):
+            continue
         try:
             res.setdefault("after", {})[n] = getattr(main, n).version()
         except Exception as e:
@@ -366,11 +374,13 @@ def run_rebind(case):
         for n, v in live["after"].items():
             out["obs"]["versions_compared"] += 1
             out["obs"]["versions_compared_after_rebinding_a_helper"] += 1
+            if n not in fresh["after"]:
+                continue
             if v != fresh["after"][n]:
                 out["viol"].append({"sig": "in-process version differs from the version a fresh process computes (after a plain helper "
                                            "was re-bound to %s)" % how.replace("_", " "),
                                     "msg": "%s: %s has version %s in the running process (before: %s), %s from scratch; statement %r; "
-                                           "parameters %s" % (pkg, n, v, live["before"][n], fresh["after"][n], REBINDS[how] % {"pkg": pkg}, params)})
+                                           "parameters %s" % (pkg, n, v, live["before"].get(n), fresh["after"][n], REBINDS[how] % {"pkg": pkg}, params)})
         if live["before"] != live["after"]:
             out["nontrivial"].append("rebind:%s:%d" % (how, case["idx"]))
         out["sample"] = {"rebind": how, "statement": REBINDS[how] % {"pkg": pkg}, "before": live["before"], "after": live["after"]}
